@@ -1,7 +1,64 @@
 """Bounded stand-in for C15 (never counted as proved): run-time sync contracts on real project pairs, see syncharness."""
-from .common import Budget
+import contextlib
+import io
+import os
+
+from .common import Budget, dir_scratch, script_header
 from .syncharness import run_focus
 
 
+def deep_compare_check():
+    """'With deep=True files are compared by content at both job and project level regardless of size and timestamps': a file present on
+    both sides with the same size and the same mtime but other bytes, top level and nested -- without a strategy the conflict is raised,
+    with FileSync.always the destination gets the source bytes; through Project.sync, Job.sync, sync_projects and sync_jobs"""
+    import logging
+    import signac
+    from signac.errors import FileSyncConflict
+    from signac.sync import FileSync, sync_jobs, sync_projects
+    logging.disable(logging.CRITICAL)
+    out = []
+    for entry in ("Project.sync", "Job.sync", "sync_projects", "sync_jobs"):
+        for rel in ("data.txt", os.path.join("sub", "deep", "data.txt")):
+            for strategy in (None, "always"):
+                with dir_scratch() as d:
+                    os.makedirs(d + "/src")
+                    os.makedirs(d + "/dst")
+                    src, dst = signac.init_project(d + "/src"), signac.init_project(d + "/dst")
+                    js, jd = src.open_job({"a": 1}).init(), dst.open_job({"a": 1}).init()
+                    for j, content in ((js, b"AAAA"), (jd, b"BBBB")):
+                        os.makedirs(os.path.dirname(j.fn(rel)), exist_ok=True)
+                        open(j.fn(rel), "wb").write(content)
+                        os.utime(j.fn(rel), (1000, 1000))
+                    kw = dict(deep=True, recursive=True, strategy=FileSync.always if strategy else None)
+                    call = {"Project.sync": lambda: dst.sync(src, **kw), "Job.sync": lambda: jd.sync(js, **kw),
+                            "sync_projects": lambda: sync_projects(src, dst, **kw), "sync_jobs": lambda: sync_jobs(js, jd, **kw)}[entry]
+                    err = None
+                    try:
+                        with contextlib.redirect_stdout(io.StringIO()):
+                            call()
+                    except FileSyncConflict as e:
+                        err = e
+                    except Exception as e:
+                        out.append((f"{entry}:{rel}:{strategy}", f"{entry}(deep=True) raised {type(e).__name__}: {e}"))
+                        continue
+                    now = open(jd.fn(rel), "rb").read()
+                    if strategy is None and (err is None or now != b"BBBB"):
+                        out.append((f"{entry}:{rel}:{strategy}", f"{entry}(deep=True, strategy=None): {rel} differs in content only (same size, same mtime): "
+                                                                  f"{'no FileSyncConflict was raised' if err is None else 'the destination file was changed'}"))
+                    if strategy == "always" and (err is not None or now != b"AAAA"):
+                        out.append((f"{entry}:{rel}:{strategy}", f"{entry}(deep=True, strategy=always): {rel} differs in content only (same size, same mtime): the destination holds {now!r} afterwards"))
+    return out
+
+
 def run(tier="quick", seed=0):
-    return run_focus("C15", tier, seed, Budget(14 if tier == "quick" else 300))
+    r = run_focus("C15", tier, seed, Budget(14 if tier == "quick" else 300))
+    try:
+        found = deep_compare_check()
+    except Exception as e:
+        found = [("raised", f"deep_compare_check raised {type(e).__name__}: {e}")]
+    for key, msg in found[:3]:
+        r["failures"].append({"key": "deep:content-only-difference:" + key, "description": msg,
+                              "script": script_header() + "sys.path.insert(0, '/verif')\nfrom pybound.c15 import deep_compare_check\nr = deep_compare_check()\nassert not r, r\n"})
+    r["evaluations"] += 16
+    r["scope"] += "; deep=True over a file that differs in content only (same size, same mtime), top level and nested, with and without a strategy, through all four entry points"
+    return r
